@@ -611,6 +611,9 @@ def run(ck):
     ck.rule("C10.callback-no-leak", "completion callbacks do not leak a synchronous exception of the injected connect callable (raise-summary of TCPClient._create_stream)")
     ck.rule("C10.create-stream-defuse", "TCPClient._create_stream uses no local that may be unbound on an exception path")
     ck.rule("C10.socket-owned", "the socket created in _create_stream is closed or owned by the returned stream on every exit")
+    from ..x_inline import inline_repo
+
+    ck.repo = inline_repo(ck.repo, [TC], {"_create_stream"})
     connector(ck)
     cfg = create_stream(ck)
     callback_leak(ck, cfg)
